@@ -352,6 +352,7 @@ func (x *Explorer) atReturn(st *State, f *Frame, r *ssa.Return, vals []Val) {
 	site := x.eng.siteOf(f, r)
 	env := x.specEnv(st, f, f.contract)
 	env.bindResults(f.contract, f.fn.Signature, vals)
+	env.entryParams = true
 	for _, cl := range f.contract.Ensures {
 		if g, ok := x.goalOf(st, env, cl, "post", site); ok {
 			x.emit(st, "post", cl.Label, site, g, cl.Where)
